@@ -568,6 +568,9 @@ def r_state_closure(ctx, *entries):
                        '%s draws from / reseeds the global numpy generator (%s)' % (f.name, rng[0][1]),
                        inputs='any history of calls')
     r_namesake(ctx, clo)
+    # a crash on a path that never binds a local breaks whatever the property promises about these entry points
+    from .exc import r_unbound
+    r_unbound(ctx, entries)
     return clo
 
 
